@@ -39,8 +39,9 @@ def expand(history, maxnest, depth, case):
     return out
 
 
-def sweep_one(h, case):
-    msgs, dg, nt = check_history(h, None, case, trailing=True)
+def sweep_one(job, case):
+    h, trailing = job
+    msgs, dg, nt = check_history(h, None, case, trailing=trailing)
     return {"viol": msgs, "obs": dg, "nt": dg if nt else None, "cls": msgs[0].split(":")[0] if msgs else None}
 
 
@@ -65,7 +66,8 @@ def run(ctx):
                          "command_case_bfs": cases[0], "command_case_sweep": cases[1]}
     ctx.bfs(functools.partial(expand, maxnest=MAXNEST[t], depth=DEPTH[t], case=cases[0]), (statespace.model_key([]), None), DEPTH[t], dedup=True, space="bfs")
     hs = all_histories(SWEEP[t], MAXNEST[t] + 1)
-    ctx.sweep(functools.partial(sweep_one, case=cases[1]), hs, space="no-dedup sweep (with a trailing dangling doccomment)")
+    ctx.sweep(functools.partial(sweep_one, case=cases[1]), [(h, t) for h in hs for t in (True, False)],
+              space="no-dedup sweep (with and without a trailing dangling doccomment)")
     ctx.assumptions += ["documented implementing definitions are outside the domain (claimed by two clauses of the statement)",
                         "generic command names are compared in lower case (C04 requires case-independent output)",
                         "wording of notes/warnings is matched by the keywords the statement names"]
@@ -73,6 +75,8 @@ def run(ctx):
 
 
 def replay(case):
+    if isinstance(case, list) and len(case) == 2 and isinstance(case[1], bool):
+        case = case[0]
     events = case if isinstance(case, list) else case["events"]
     msgs = []
     for cs in ("lower", "upper", "mixed"):
